@@ -320,13 +320,20 @@ class Run:
                   % (self.prop, known[key].get("what", key), key, len(vs)))
         # de-duplicate new violations by (clause, mech) for printing, keep all in the replay file
         seen = set()
+        per_sig: Dict[Any, int] = {}
+        pd = REPLAY_DIR / self.prop
+        if pd.exists():
+            for old_file in pd.glob("*.json"):
+                if not old_file.name.startswith("known-"):
+                    old_file.unlink()
         for v in new:
             sig = (v.get("clause"), v.get("mech"))
             h = hashlib.sha256(json.dumps(v, sort_keys=True, default=str).encode()).hexdigest()[:12]
             d = REPLAY_DIR / self.prop
             d.mkdir(parents=True, exist_ok=True)
             path = d / ("%s-%s.json" % (v.get("clause", "x").replace("/", "_")[:40], h))
-            if sig in seen and len(seen) > 20:
+            per_sig[sig] = per_sig.get(sig, 0) + 1
+            if per_sig[sig] > 3:
                 continue
             path.write_text(json.dumps(v, indent=1, default=str))
             if sig not in seen:
